@@ -36,22 +36,23 @@ class LoopGuard(Exception):
 
 
 @contextlib.contextmanager
-def time_limit(seconds=2.0):
-    """Bound one call into the implementation (only where signals can be delivered: main thread)."""
+def time_limit(seconds=10.0):
+    """Bound one call into the implementation by the CPU time of THIS process (an endless framing loop burns
+    CPU; a process that is merely descheduled on a loaded machine does not).  Main thread only."""
     if threading.current_thread() is not threading.main_thread():
         yield
         return
 
     def on_alarm(signum, frame):
-        raise LoopGuard("no return within %.1fs" % seconds)
+        raise LoopGuard("no return within %.1fs of CPU time" % seconds)
 
-    old = signal.signal(signal.SIGALRM, on_alarm)
-    signal.setitimer(signal.ITIMER_REAL, seconds)
+    old = signal.signal(signal.SIGVTALRM, on_alarm)
+    signal.setitimer(signal.ITIMER_VIRTUAL, seconds)
     try:
         yield
     finally:
-        signal.setitimer(signal.ITIMER_REAL, 0)
-        signal.signal(signal.SIGALRM, old)
+        signal.setitimer(signal.ITIMER_VIRTUAL, 0)
+        signal.signal(signal.SIGVTALRM, old)
 
 
 _active = []  # stack of objects with .on_write(transport, data) / .on_lose(transport)
@@ -156,6 +157,8 @@ class BCRun(object):
         self.cur = None  # Conn currently bound to the client protocol
         self.wfail = False
         self.timers = []
+        self.hooks = {}  # serial -> action words to run (re-entrantly) when that Deferred fires
+        self.close_called = False
         self.world.net.log = _FwdList(self._net_event)
         clock = self.world.clock
         orig_call_later = clock.callLater
@@ -263,11 +266,25 @@ class BCRun(object):
                 self.log.append("fire %d %d ok %s" % (serial, cid, hx(r)))
             else:
                 self.log.append("fire %d %d ok ?%r" % (serial, cid, r))
+            self._run_hook(serial)
 
         def eb(f):
             self.log.append("fire %d %d err %s" % (serial, cid, err_kind(f)))
+            self._run_hook(serial)
 
         return cb, eb
+
+    def _run_hook(self, serial):
+        """The caller's callback: one re-entrant call into the broker client, from inside the firing."""
+        act = self.hooks.pop(serial, None)
+        if act is None:
+            return
+        self.log.append("hook %d" % serial)
+        try:
+            self._ex(act)
+        except Exception as e:  # would be swallowed by the Deferred ("Unhandled error"): made visible
+            self.log.append("raise other:%s" % e.__class__.__name__)
+        self.log.append("endhook")
 
     def _ex(self, w):
         op = w[0]
@@ -287,6 +304,9 @@ class BCRun(object):
                 return
             self.serial += 1
             self.defs[cid] = d
+            self.log.append("made %d %d" % (serial, cid))
+            if len(w) > 3 and w[3] == "hook":
+                self.hooks[serial] = w[4:]
             # callbacks are attached after makeRequest returned: anything that fired inside it is logged now,
             # AFTER the writes it made (the order a caller observes)
             d.addCallbacks(*self._fire_cb(serial, cid))
@@ -335,6 +355,9 @@ class BCRun(object):
             else:
                 self._do_lost()
         elif op == "close":
+            if not self.close_called:
+                self.close_called = True
+                self.log.append("closing")
             try:
                 d = self.bc.close()
             except AssertionError:
@@ -418,6 +441,7 @@ class BCRun(object):
             tuple(sorted(c.getTime() - self.now() for c in self.world.clock.getDelayedCalls())),
             bytes(bc.proto._unprocessed) if bc.proto is not None else b"",
             self.wfail,
+            tuple(sorted((self.by_serial[k][0], tuple(v)) for k, v in self.hooks.items())),
         )
 
 
